@@ -17,20 +17,22 @@ type gen struct {
 	maxOps int
 	nops   int
 
-	ints        []string          // internal extension names to register
-	subs        map[string]string // events each extension will subscribe to
-	registered  map[string]bool
-	everNext    map[string]bool
-	rtHolding   bool // runtime has an invocation and has not responded
-	rtResponded bool
-	invLeft     int
-	nextCaller  int
-	delivered   int
-	faults      int
-	sawBlocked  bool
-	sawRefusal  bool
-	lastBlocked string
-	rtAsked     bool // the runtime issued its first next in this generation
+	ints         []string          // internal extension names to register
+	subs         map[string]string // events each extension will subscribe to
+	registered   map[string]bool
+	everNext     map[string]bool
+	rtHolding    bool // runtime has an invocation and has not responded
+	rtResponded  bool
+	invLeft      int
+	nextCaller   int
+	delivered    int
+	faults       int
+	sawBlocked   bool
+	sawRefusal   bool
+	lastBlocked  string
+	rtAsked      bool       // the runtime issued its first next in this generation
+	pre          [][]string // ops issued before anything else (fake process behaviours)
+	resetPending bool
 }
 
 func newGen(r *rng.R, family string) *gen {
@@ -39,6 +41,9 @@ func newGen(r *rng.R, family string) *gen {
 	ne := r.Intn(4)
 	if family == "noext" {
 		ne = 0
+	}
+	if family == "sizes" {
+		ne = r.Intn(2)
 	}
 	g.cfg.exts = append([]string{}, names[:ne]...)
 	if r.Chance(1, 5) {
@@ -59,8 +64,18 @@ func newGen(r *rng.R, family string) *gen {
 	}
 	g.cfg.timeout = 2000
 	switch family {
-	case "timeouts", "faults", "chaos":
+	case "timeouts", "faults", "chaos", "shutdown":
 		g.cfg.timeout = 300 + 100*r.Intn(4)
+	case "sizes":
+		g.cfg.timeout = 8000
+	}
+	if family == "shutdown" {
+		// how the fake processes react to SIGTERM
+		for _, n := range append([]string{"runtime"}, g.cfg.exts...) {
+			if r.Chance(1, 2) {
+				g.pre = append(g.pre, []string{"beh", n, []string{"term=exit:0", "term=exit:3", "term=ignore"}[r.Intn(3)]})
+			}
+		}
 	}
 	g.invLeft = 2 + r.Intn(3)
 	g.maxOps = 80
@@ -76,6 +91,11 @@ type cand struct {
 
 func (g *gen) next(w *world) []string {
 	g.nops++
+	if len(g.pre) > 0 {
+		op := g.pre[0]
+		g.pre = g.pre[1:]
+		return op
+	}
 	s := w.s
 	var cs []cand
 	add := func(weight int, ws ...string) {
@@ -99,10 +119,16 @@ func (g *gen) next(w *world) []string {
 		misuse, fault, conc = 4, 3, 2
 	case "concurrent":
 		conc = 8
+	case "shutdown":
+		fault = 3
 	}
 	sizes := []int{0, 1, 2, 17, 4095, 4096, 65537}
+	const maxp = 6*1024*1024 + 100
+	if g.family == "sizes" {
+		sizes = []int{0, 1, 65537, 1<<20 - 1, 1 << 20, maxp - 1, maxp, maxp + 1, maxp + 4096, maxp / 2}
+	}
 	fills := []string{"rand", "zero", "ff", "crlf", "utf8bad"}
-	if callers == 0 && g.invLeft > 0 {
+	if callers == 0 && g.invLeft > 0 && !g.resetPending {
 		add(40, "invoke", fmt.Sprint(g.nextCaller), fmt.Sprint(sizes[g.r.Intn(len(sizes))]), fills[g.r.Intn(len(fills))])
 	}
 	if callers > 0 && conc > 0 {
@@ -152,6 +178,9 @@ func (g *gen) next(w *world) []string {
 		}
 		if g.rtHolding {
 			sz := []int{0, 1, 10, 4096, 70000}[g.r.Intn(5)]
+			if g.family == "sizes" {
+				sz = []int{0, 1, 65537, 1 << 20, maxp - 1, maxp, maxp + 1, maxp + 100000, maxp / 2}[g.r.Intn(9)]
+			}
 			add(40, "rt", "response", "cur", fmt.Sprint(sz), fills[g.r.Intn(len(fills))])
 			add(6, "rt", "error", "cur", []string{"Function.Oops", "Runtime.Bad", "garbage_type"}[g.r.Intn(3)])
 			add(misuse, "rt", "next")
@@ -167,6 +196,20 @@ func (g *gen) next(w *world) []string {
 		add(fault, "exit", "runtime", []string{"0", "1", "2", "sig11"}[g.r.Intn(4)])
 		if !g.everNext["rt"] {
 			add(fault, "rt", "initerror", "Runtime.InitBoom")
+		}
+	}
+	if g.family == "shutdown" {
+		if callers > 0 {
+			add(3, "sleep", fmt.Sprint(g.cfg.timeout+150))
+			add(3, "sleep", "700")
+		} else if g.delivered > 0 && !g.resetPending {
+			// explicit reset / shutdown of an idle environment (never concurrently with another reset:
+			// concurrent Reset() calls share one unbuffered completion channel)
+			add(6, "reset", []string{"timeout", "failure", "explicit"}[g.r.Intn(3)])
+			add(2, "shutdown")
+		}
+		if g.resetPending {
+			add(10, "sleep", "700")
 		}
 	}
 	if g.family == "timeouts" || g.family == "chaos" {
@@ -196,6 +239,12 @@ func (g *gen) observe(ws []string, obs string) {
 	}
 	if ws[0] == "rt" && ws[1] == "next" {
 		g.rtAsked = true
+	}
+	if ws[0] == "reset" || ws[0] == "shutdown" {
+		g.resetPending = true
+	}
+	if strings.Contains(obs, "reset done") || strings.Contains(obs, "shutdown done") {
+		g.resetPending = false
 	}
 	if ws[0] == "exit" || ws[0] == "sleep" {
 		g.faults++
